@@ -79,6 +79,14 @@ func init() {
 	"math/bits.TrailingZeros32": func(fr *frame, a []value) value { return extBitsTz(fr, a[0], 32) },
 	"math/bits.OnesCount64":     func(fr *frame, a []value) value { return extBitsPop(fr, a[0], 64) },
 	"math/bits.OnesCount32":     func(fr *frame, a []value) value { return extBitsPop(fr, a[0], 32) },
+	"internal/bytealg.MakeNoZero": func(fr *frame, a []value) value {
+		n := fr.i.concInt(a[0], "MakeNoZero")
+		out := make([]value, n)
+		for k := range out {
+			out[k] = uint8(0)
+		}
+		return out
+	},
 	"runtime.KeepAlive": func(fr *frame, a []value) value { return nil },
 	"runtime.GC":        func(fr *frame, a []value) value { return nil },
 	}
